@@ -109,8 +109,14 @@ type builderSpec struct {
 }
 
 // buildSession makes an honest proof list from the given builder specs.
+// forcedContext, when set, is the context of the next session built (boundary contexts 0 and 1)
+var forcedContext *gbig.Int
+
 func buildSession(specs []builderSpec, rng *Rng, issig bool) *Session {
 	s := &Session{Context: rng.Bits(200), Nonce: rng.Bits(80), IsSig: issig}
+	if forcedContext != nil {
+		s.Context, forcedContext = forcedContext, nil
+	}
 	var builders gabi.ProofBuilderList
 	for _, sp := range specs {
 		s.Pks = append(s.Pks, sp.key.Pk)
